@@ -205,6 +205,8 @@ impl Executor {
             task::spawn(future, schedule_task, self.context.executor_id);
 
         task_entry.insert(cancel_token);
+        #[cfg(nexosim_verif)]
+        crate::verif::spawned(runnable.id());
         self.context.injector.insert_task(runnable);
 
         promise
@@ -234,6 +236,8 @@ impl Executor {
             task::spawn_and_forget(future, schedule_task, self.context.executor_id);
 
         task_entry.insert(cancel_token);
+        #[cfg(nexosim_verif)]
+        crate::verif::spawned(runnable.id());
         self.context.injector.insert_task(runnable);
     }
 
